@@ -166,8 +166,9 @@ FIELD_NAMES = ["a", "b", "c", "d", "e", "f", "g", "h", "k", "x", "y", "z", "val"
 
 
 class Gen:
-    def __init__(self, seed, label="schema", max_types=12, allow_recursion=True, profile="full", anon_pairs=True):
+    def __init__(self, seed, label="schema", max_types=12, allow_recursion=True, profile="full", anon_pairs=True, rec_containers=False):
         self.anon_pairs = anon_pairs
+        self.rec_containers = rec_containers  # recursion through vector/dictionary/Maybe: legal, but generated FillRandom values of such types get huge
         self.r = stream(seed, label)
         self.s = Schema()
         self.tags = set(TAG.values())
@@ -269,6 +270,19 @@ class Gen:
                         (masks if role == "mask" else sizes).append((nm2, "field"))
                     out.append(Field(nm + "s", T("prim", name="int", spelling="int"), arr=NatExpr("field", out[-2].name)))
                     used.add(nm + "s")
+                continue
+            if self_decl is not None and self.allow_recursion and self.rec_containers and 38 <= c < 44:
+                # recursion through a container: terminates because the container may be empty
+                selfref = T("ref", decl=self_decl, bare=True, pct=False, args=[])
+                k = r.below(4)
+                if k == 0:
+                    out.append(Field(nm, T("vector", elem=selfref, form=r.pick(["bare", "boxed"])), mask))
+                elif k == 1:
+                    out.append(Field(nm, T("dict", key=r.pick(["str", "int"]), elem=selfref, boxed=False), mask))
+                elif k == 2:
+                    out.append(Field(nm, T("maybe", elem=selfref), mask))
+                else:
+                    out.append(Field(nm, T("vector", elem=T("maybe", elem=selfref), form="bare"), mask))
                 continue
             if self_decl is not None and mask and self.allow_recursion and r.chance(3, 10):
                 out.append(Field(nm, T("ref", decl=self_decl, bare=True, pct=False, args=[]), mask))
